@@ -122,4 +122,35 @@ theorem py_negotiate_scalars_eq_model (oursAs oursHold theirsAs theirsHold : Nat
     cases r.refresh <;> cases s.extMsg <;> cases r.extMsg <;> by_cases ht : theirsAs = 23456 <;>
     simp [ht, Refresh.code, initialSize, extendedSize, Bool.and_comm, hc1, hc2, hc3, hc4]
 
+/-! ## The fixed part of a received OPEN (`Open.unpack_message`) -/
+
+/-- what `decodeOpen` does before it reads the optional parameters -/
+def openFront (body : Bytes) : Option Err :=
+  if body.length < 10 then some ⟨1, 2⟩ else if body.getD 0 0 ≠ 4 then some ⟨2, 1⟩ else none
+
+theorem decodeOpen_front (body : Bytes) (e : Err) (h : openFront body = some e) : decodeOpen body = .error e := by
+  unfold openFront at h
+  unfold decodeOpen
+  by_cases h1 : body.length < 10
+  · rw [if_pos h1] at h ⊢; cases h; rfl
+  · rw [if_neg h1] at h ⊢
+    by_cases h2 : body.getD 0 0 ≠ 4
+    · rw [if_pos h2] at h ⊢; cases h; rfl
+    · rw [if_neg h2] at h; cases h
+
+/-- **`Open.unpack_message` as translated from /repo refuses exactly what `decodeOpen` refuses before it reads the
+    optional parameters**, with the same NOTIFICATION (1/2 for a body shorter than the fixed part, 2/1 for a version
+    other than 4), on what the model reads off the same bytes. -/
+theorem py_open_fixed_eq_model (body : Bytes) :
+    PyNego.OpenFixed.unpack_message ⟨⟩ body.length (body.getD 0 0) =
+      (match openFront body with | some e => .raise e.code e.sub | none => .ret true ⟨⟩) := by
+  unfold PyNego.OpenFixed.unpack_message openFront
+  generalize body.getD 0 0 = v
+  generalize body.length = n
+  by_cases h1 : n < 10 <;> by_cases h2 : v = 4
+  all_goals (
+    have c1 : ((n : Int) < 10) ↔ n < 10 := by omega
+    have c2 : ((v : Int) = 4) ↔ v = 4 := by omega
+    simp [h1, h2, c1, c2])
+
 end Exa.Open
